@@ -248,6 +248,11 @@ def classify_disagreement(c, er):
         return "nested:clause-applied-to-operator-result:failure"
     if "union-under-structure-change" in flags and (sym == "wrong-result" or sym.startswith("sql-")):
         return f"nested:union-under-structure-change:{'failure' if sym != 'wrong-result' else sym}"
+    if (c.get("nested") and "measure-renaming-operator" in flags and sym == "wrong-result" and "[rename" in c["script"].replace(" ", "").replace("[rename", "[rename")
+            and not CLAUSE_ON_RESULT.search(c["script"])):
+        # a measure-renaming operator (between, comparison, ceil …) applied directly to a clause result whose single measure was renamed:
+        # the SQL keeps the renamed column, the fetch looks for bool_var / int_var and drops the measure
+        return "nested:renaming-operator-over-renamed-measure:wrong-result"
     if c.get("nested"):
         if CLAUSE_ON_RESULT.search(c["script"]):
             # the known defect concerns operators whose single measure the engine renames; anything else is a different shape
